@@ -55,6 +55,11 @@ Theorem C14_reverse_complement_involution : forall s r, all_chars involutive s =
 Proof. exact comp_involutive. Qed.
 Print Assumptions C14_reverse_complement_involution.
 
+(* at the level of the method: the reverse complement of the reverse complement is the sequence, the placeholder included *)
+Theorem C14_reverse_complement_twice : forall s r, all_chars involutive s = true -> rc s = Ok r -> rc r = Ok s.
+Proof. exact rc_involutive. Qed.
+Print Assumptions C14_reverse_complement_twice.
+
 Theorem C14_cut_length : forall n s, String.length (drop n s) = (String.length s - n)%nat.
 Proof. exact drop_length. Qed.
 Print Assumptions C14_cut_length.
